@@ -375,6 +375,18 @@ func purityHistories() []HistFamily {
 			out = append(out, h)
 		}
 	}
+	// contours whose last curve ends within Epsilon of the start point without being equal to it, then
+	// Close: is that Close a segment or not - every query has to answer alike
+	var nearly [][]Call
+	for _, g := range []float64{2.4e-15, 5e-11} {
+		nearly = append(nearly,
+			[]Call{moveTo(Pt{X: 10, Y: 0}), arcTo(10, 10, 0, false, true, Pt{X: -10, Y: 0}), arcTo(10, 10, 0, false, true, Pt{X: 10, Y: -g}), closeCall()},
+			[]Call{moveTo(Pt{X: 2, Y: 0}), quadTo(Pt{X: 2, Y: 3}, Pt{X: 0, Y: 3}), lineTo(Pt{X: 0, Y: 1}), quadTo(Pt{X: 2 - g, Y: 1}, Pt{X: 2 - g, Y: 0}), closeCall()},
+			[]Call{moveTo(Pt{X: 0, Y: 0}), lineTo(Pt{X: 4, Y: 0}), cubeTo(Pt{X: 4, Y: 3}, Pt{X: g, Y: 3}, Pt{X: g, Y: g}), closeCall()},
+		)
+	}
+	out = append(out, HistFamily{Name: "contours closed by a Close shorter than Epsilon after a curve", N: int64(len(nearly)),
+		Calls: func(i int64) []Call { return nearly[i] }})
 	purityHist = out
 	return out
 }
@@ -495,7 +507,7 @@ func Prop() *fw.Property {
 			"shape models take start point and direction conventions from the constructors (origin / (0,r) / (rx,0) / top vertex, counter clockwise)",
 			"purity is observed on Data() and on the argument objects handed in; aliasing of results with the receiver (Split, Dash with no pattern, Reverse of an empty path) is not a violation by itself",
 			"quick tier: depth-3 states get the core subset of the method list (28 of 77 invocations), shallower states and the thorough tier the full list; the list includes aliasing probes (extend a returned path, the receiver must not change)",
-			"Clip, FastClip, SimplifyVisvalingamWhyatt, Markers, GobEncode are called too but only tallied (not in the property's list; Clip panics with \"not implemented\" on curves)",
+			"Clip, FastClip, SimplifyVisvalingamWhyatt, GobEncode are called too but only tallied (not in the property's list; Clip panics with \"not implemented\" on curves); Markers is a totality probe since wave 19, and Coords/CoordDirections must agree in length on single subpaths",
 			"termination is judged by the framework watchdog (60 s per history)",
 		},
 		Families:        families,
